@@ -9,7 +9,7 @@ from harness.known import replay_known  # noqa: F401
 from univers.version_constraint import VersionConstraint
 from univers import version_range as VR
 
-MODULES = ["Univers.Props.C12"]
+MODULES = ["Univers.Props.C12", "Univers.Py.ClassPins"]
 LEVEL = "proof"
 RULE = ("per scheme: equal-but-differently-spelled pairs (zero padding, omitted zero epoch or revision, qualifier aliases, "
         "differing build metadata …) from the respelling stream — hash equality of the real objects against equality of the "
